@@ -35,6 +35,7 @@ type Replayer struct {
 	repo, verif, scratch string
 	ovFiles              map[string]string
 	files                map[string][]string
+	race                 bool
 	Runs                 int
 	Time                 time.Duration
 }
@@ -93,6 +94,9 @@ func (rp *Replayer) replayAll(results []*HarnessResult) {
 				default:
 					for _, e := range v.NativeEvents {
 						if e == "assert-fail:"+v.Label {
+							v.Confirmed = true
+						}
+						if e == "data-race" && (strings.HasPrefix(v.Label, "data race") || strings.HasPrefix(v.Label, "unsynchronised access")) {
 							v.Confirmed = true
 						}
 					}
@@ -221,7 +225,7 @@ func (rp *Replayer) runBatch(pkgRel string, items []*replayItem) {
 	listPath := filepath.Join(dir, "list.txt")
 	os.WriteFile(listPath, []byte(list.String()), 0o644)
 	// address-space limit: a counterexample may be "allocates an input-controlled amount of memory"
-	cmd := exec.Command("bash", "-c", "ulimit -v 16000000; exec go test -v -vet=off -count=1 -timeout 300s -overlay "+ovPath+" -run '^TestVerifReplay$' ./"+pkgRel)
+	cmd := exec.Command("bash", "-c", "ulimit -v "+map[bool]string{true: "unlimited", false: "16000000"}[rp.race]+"; exec go test "+map[bool]string{true: "-race ", false: ""}[rp.race]+"-v -vet=off -count=1 -timeout 300s -overlay "+ovPath+" -run '^TestVerifReplay$' ./"+pkgRel)
 	cmd.Dir = rp.repo
 	cmd.Env = append(os.Environ(), "GOFLAGS=-mod=mod", "GOPROXY=off", "GOSUMDB=off", "GOTOOLCHAIN=local", "VERIF_REPLAY_LIST="+listPath)
 	var out bytes.Buffer
@@ -229,6 +233,14 @@ func (rp *Replayer) runBatch(pkgRel string, items []*replayItem) {
 	cmd.Stderr = &out
 	cmd.Run()
 	started := -1
+	raced := strings.Contains(out.String(), "DATA RACE")
+	defer func() {
+		if raced {
+			for _, it := range items {
+				it.native = append(it.native, "data-race")
+			}
+		}
+	}()
 	for _, l := range strings.Split(out.String(), "\n") {
 		if strings.HasPrefix(l, "VERIF-REPLAY-START ") {
 			fmt.Sscan(strings.TrimPrefix(l, "VERIF-REPLAY-START "), &started)
